@@ -786,6 +786,10 @@ class Interp:
         self.budget = None
         self.per_caller_budget = False
         self.max_groups = 8
+        self.lazy_running = set()
+        self.kraw = {}
+        self.json_consts = {}
+        self.elementwise = True     # iterate small literal containers element by element
         self.keep_fact = None       # rule-specific predicate: facts never garbage-collected
         self.cast_events = None     # list to collect value-changing integer casts
         self.skip_bodies = set()    # workspace functions treated as opaque (rule-specific runs)
@@ -1188,7 +1192,8 @@ class Interp:
                 el = join(el, const_int(b))
             if el == BOT:
                 el = ('T', self.types.u8(), None)
-            cell = ('k', 'bytes', v['bytes'][:64], len(bs))
+            import hashlib
+            cell = ('k', 'bytes', v['bytes'][:64] if len(bs) <= 32 else hashlib.sha1(bs).hexdigest(), len(bs))
             return ('Rk', cell, ('S', const_int(len(bs)), el, items), bs)
         if 'ptr' in v or 'alloc' in v:
             key = v.get('ptr', v.get('alloc'))
@@ -1324,6 +1329,8 @@ class Interp:
         cell = v[1]
         if cell not in self.kcells:
             self.kcells[cell] = v[2]
+            if len(v) > 3 and v[3] is not None:
+                self.kraw[cell] = v[3]
         return ('R', cell, (), False)
 
     def operand(self, st, frame, o):
@@ -1978,6 +1985,10 @@ class InterpOps:
             lo_t, hi_t = int_range(ty)
             base = op.replace('WithOverflow', '').replace('Unchecked', '')
             lo, hi, zeros = res
+            if op == 'SubWithOverflow' and ovf and lo_t == 0 and hi <= hi_t and a[4] is not None and b[4] is not None \
+                    and self.entails_le(st, b[4], a[4]):
+                ovf = False           # b <= a is known from the path facts
+                lo = max(lo, 0)
             if op.endswith('WithOverflow'):
                 flag = mk_int(0 if (lo >= lo_t and hi <= hi_t) else 0, 1 if ovf else 0)
                 if lo > hi_t or hi < lo_t:
@@ -2339,7 +2350,7 @@ class CallMixin:
         for st, v in rets:
             for key in [k for k in st.cells if k[0] == d]:
                 del st.cells[key]
-            if nf.info.part_locals and st.tags:
+            if st.tags:
                 st.tags = frozenset(tg for tg in st.tags if not (tg[0] == 'P' and tg[1] == nf.pathid))
             if not discard:
                 self.write_dest(st, frame, t, v)
@@ -2567,7 +2578,7 @@ class Engine(Interp, InterpOps, CallMixin, ZoneMixin):
         self.kcells = {}
         self.gc_roots = set()
         self.loop_info = {}
-        self.unroll = 16
+        self.unroll = 40
         self.layout_hook = None
         self.const_checks = []
         self._last_closure_ret = BOT
@@ -2584,7 +2595,7 @@ class Engine(Interp, InterpOps, CallMixin, ZoneMixin):
         buckets = {}
         for s in sts:
             try:
-                h = hash(frozenset(s.cells.items()))
+                h = hash((frozenset(s.cells.items()), s.tags, frozenset(s.rf.items()) if len(s.rf) < 64 else len(s.rf)))
             except TypeError:
                 h = len(s.cells)
             bl = buckets.setdefault(h, [])
@@ -3159,6 +3170,8 @@ class Engine(Interp, InterpOps, CallMixin, ZoneMixin):
                     else:
                         lv = self.lvalue(st, frame, pl)
                         weak = lv is not None and any(isinstance(e, tuple) and e[0] == 'i*' for e in lv[1])
+                        if v[0] == 'S' and stmt['rv']['k'] == 'agg' and 'alloc/src/macros.rs' in str(stmt.get('sp')):
+                            st.cells[('vecinit', frame.depth)] = v      # vec![..]: consumed by box_assume_init_into_vec_unsafe
                         self.write_lv(st, lv, v, weak)
                     if self.stmt_hook is not None:
                         self.stmt_hook(self, st, frame, b, idx, stmt, v)
@@ -3301,6 +3314,13 @@ class Engine(Interp, InterpOps, CallMixin, ZoneMixin):
         return True
 
     def do_assert(self, frame, b, t, sts, outs, quiet):
+        if t['msg'].startswith(('MisalignedPointerDereference', 'NullPointerDereference')):
+            # debug-build UB checks on raw-pointer dereferences: the workspace has no unsafe code, they
+            # only guard std macro expansions (vec!) over freshly allocated boxes
+            if not quiet and sts:
+                self.record(frame, b, frame.info.ordinals[b], True, None, len(sts), False, sp=t.get('sp'))
+            outs[t['t']] = sts
+            return
         ok_all = True
         detail = None
         nontrivial = False
